@@ -40,7 +40,7 @@ CLAIMED = {
             "std formatting of the inner value is the reference."),
     "C12": ("runtime monitor: exhaustive 2^k case-flip and Unicode look-alike inputs against a hand-written ASCII-fold reference parser",
             "Systematic grid {enum flag} x {variant flag absent/bare/=true/=false} x spelling classes (ASCII, non-ASCII, Kelvin/long-s/dotless-i/sharp-s) plus seeded random enums; all 2^k flips (k<=10 quick, 12 thorough) of every spelling, look-alike substitutions and Unicode case mappings are parsed and compared with the reference parser.",
-            "Flip sets are exhaustive only up to k letters per spelling; look-alike table is finite."),
+            "Flip sets are exhaustive only up to k letters per spelling; look-alike table is finite; inputs claimed by two variants of an overlapping pair are not judged."),
     "C13": ("runtime monitor: every sample value against every generated method, names from the model's snakify",
             "Seeded enums over kinds, 0..3 tuple fields (distinct and repeated types), generics/lifetimes/where-clauses with associated types, identifiers with several digit runs, disabled variants at every position: is_* partition, try_as_*/_ref/_mut Some exactly for the own variant with fields in order (Debug compare with the constructed payload), writes through &mut re-read.",
             "Debug rendering is the observation channel for payloads."),
@@ -52,7 +52,7 @@ CLAIMED = {
             "Not exhaustive over key strings."),
     "C16": ("runtime monitor: plain/use_phf twins, both against the same reference parser on the same inputs; compile outcome of the twin",
             "Field-less enums (C12 grid + seeded; lower/upper/caseless/non-ASCII/empty spellings, both case-insensitivity levels, disabled, fold-equal aliases, optional default variant) rendered with and without use_phf against strum built with the phf feature: the phf twin must compile and both parsers must agree with the reference parser on every input.",
-            "Equality of both twins with one model implies equality with each other; domain = non-overlapping spellings."),
+            "Equality of both twins with one model implies equality with each other; on enums with deliberately overlapping spellings only inputs claimed by exactly one variant are judged."),
     "C17": ("runtime monitor: format-spec grid vs std's own str formatting; placeholder literals vs generator-emitted format!",
             "Fixed names of unit/tuple/named variants (multi-byte names, prefix, styles, field names incl. f) under fill x align x width 0..16 x precision none/0..8 plus sign/#/0 flags (~2.5k specs per value) compared with format!(spec, canonical str); placeholder variants (all field orders, subsets, repeats, nested specs, escaped braces, extreme payloads) compared with format!(literal, fields..).",
             "std formatting is the reference by definition of the property."),
@@ -104,7 +104,7 @@ def main():
              "kind_free_text": "python corpus/model generator + direct-rustc shard builder + Rust runtime monitor library (lock-step reference models, event log, offline merge)"},
         ],
         "checks": checks,
-        "notes": "Runtime monitoring family. exit 0 held / 1 VIOLATION / 2 INCONCLUSIVE (infrastructure, never a verdict). See DESIGN.md.",
+        "notes": "Runtime monitoring family. exit 0 held / 1 VIOLATION / 2 INCONCLUSIVE (infrastructure, never a verdict). All corpora include unrelated (noise) attributes, shuffled attribute order, raw identifiers, macro_rules-declared enums, defaulted/where-clause generics; 216 seeded changes + 9 reverted fixes are listed with the catching check in selftest/RESULTS.md. See DESIGN.md.",
         "not_applicable": na,
     }
     json.dump(man, open(os.path.join(HERE, "MANIFEST.json"), "w"), indent=1)
